@@ -1176,8 +1176,8 @@ impl Scenario for C12 {
 
     fn units(tier: Tier) -> u64 {
         match tier {
-            Tier::Quick => 4_000,
-            Tier::Thorough => 20_000,
+            Tier::Quick => 12_000,
+            Tier::Thorough => 60_000,
         }
     }
     fn unit(seed: u64, tier: Tier, unit: u64, sink: &mut dyn FnMut(Plan) -> bool) {
